@@ -460,7 +460,7 @@ pub fn parent_main(p: &PropDef, tier: Tier, seed: u64) -> i32 {
         .and_then(|s| s.parse().ok())
         .unwrap_or(match tier {
             Tier::Quick => 240.0,
-            Tier::Thorough => 3000.0,
+            Tier::Thorough => 1500.0,
         });
     let exe = std::env::current_exe().expect("current exe");
     let mut total = Stats::default();
